@@ -307,7 +307,8 @@ namespace lab
         F_APPROX = 32,     // may report approximate solutions
         F_MULTILEVEL = 64,
         F_SYMM = 128,      // requires a symmetric distance / interpolation (not for Dubins)
-        F_SLOWSETUP = 256  // expensive per-solve setup (batch planners): fewer runs in quick tier
+        F_SLOWSETUP = 256,  // expensive per-solve setup (batch planners): fewer runs in quick tier
+        F_DIRAWARE = 512    // bidirectional, but validates goal-tree motions in the direction they are travelled
     };
 
     struct Entry
@@ -355,7 +356,7 @@ namespace lab
     {
         std::vector<Entry> r;
         r.push_back(E<og::RRT>("RRT", F_PAIRS | F_APPROX));
-        r.push_back(E<og::RRTConnect>("RRTConnect", F_PAIRS | F_BIDIR | F_APPROX));
+        r.push_back(E<og::RRTConnect>("RRTConnect", F_PAIRS | F_BIDIR | F_APPROX | F_DIRAWARE));
         r.push_back(E<og::RRTstar>("RRTstar", F_OPT | F_PAIRS | F_APPROX));
         r.push_back(E<og::InformedRRTstar>("InformedRRTstar", F_OPT | F_PAIRS | F_APPROX));
         r.push_back(E<og::SORRTstar>("SORRTstar", F_OPT | F_PAIRS | F_APPROX));
@@ -365,7 +366,7 @@ namespace lab
         r.push_back(E<og::LazyLBTRRT>("LazyLBTRRT", F_OPT | F_PAIRS | F_APPROX));
         r.push_back(E<og::LazyRRT>("LazyRRT", F_PAIRS));
         r.push_back(E<og::TRRT>("TRRT", F_OPT | F_PAIRS | F_APPROX));
-        r.push_back(E<og::BiTRRT>("BiTRRT", F_PAIRS | F_BIDIR));
+        r.push_back(E<og::BiTRRT>("BiTRRT", F_PAIRS | F_BIDIR | F_DIRAWARE));
         r.push_back(E<og::pRRT>("pRRT", F_MT | F_PAIRS | F_APPROX));
         r.push_back(E<og::EST>("EST", F_PAIRS | F_APPROX));
         r.push_back(E<og::BiEST>("BiEST", F_PAIRS | F_BIDIR));
@@ -578,8 +579,8 @@ namespace lab
     {
         if ((e.flags & F_PROJ) && kind == "CMP")
             return false;  // no default projection registered for arbitrary compounds
-        if (kind == "DUBINS" && (e.flags & (F_SYMM | F_BIDIR)))
-            return false;  // asymmetric distance: only direction-aware (forward tree) planners
+        if (kind == "DUBINS" && ((e.flags & F_SYMM) || ((e.flags & F_BIDIR) && !(e.flags & F_DIRAWARE))))
+            return false;  // asymmetric motions: only direction-aware planners (forward trees, RRTConnect, BiTRRT)
         if ((e.flags & F_MULTILEVEL) && !(kind == "R2" || kind == "SE2" || kind == "R3"))
             return false;  // projections exist for SE(2) -> R^2 and R^3 -> R^2
         return true;
